@@ -201,6 +201,17 @@ def run(ctx) -> Result:
     from . import C19
     C19.check_equivalence(res, proj, False, "A5")
     _check_no_other_refusal(res, proj, ctx.cg)
+    # A6: "computes a consensus" needs the local search to stop: shared obligations of C08 (sweep protocol, strictly
+    # negative acceptance thresholds - with a threshold of 0 rounding noise lets a move and its inverse both "improve")
+    from . import C08
+    sub = Result("C14")
+    C08.fill_result(sub, proj, False, only=["L1", "L3"])
+    res.rule("A6", "BioConsert's local search terminates: sweep protocol and strictly negative acceptance thresholds "
+                   "(shared with C08/L1, L3)", 4)
+    for o in sub.obligations:
+        o.rule = "A6"
+        res.obligations.append(o)
+    res.functions |= sub.functions
     res.not_decided.append("well-formedness of the consensus computed once the guard is passed (C03)")
     return res
 
@@ -215,6 +226,14 @@ def _check_guards(res: Result, proj: Project, aw: AlgWorld, schemes):
         return rt.new(D, [[rt.new(R, [[set(b) for b in r]], {}) for r in raws]], {})
     incomplete = dataset([[{1}, {2}], [{3}, {2, 1}], [{2}]])
     complete = dataset([[{1}, {2}, {3}], [{3}, {2, 1}]])
+    E = proj.cls("corankco.element", "Element")
+    # complete because the elements that made it incomplete were removed in place / the empty ranking dropped
+    became = dataset([[{1}, {2}, {3}], [{3}, {2, 1}, {4}], [{2}, {1}, {3}]])
+    rt.call_method(became, "remove_elements", {rt.new(E, [4], {})})
+    became2 = dataset([[{1}, {2}], [], [{2, 1}]])
+    rt.call_method(became2, "remove_empty_rankings")
+    became3 = dataset([[{1}, {2}, {5}], [{2, 1}], [{2}, {1}], [{1}, {2}]])
+    rt.call_method(became3, "remove_elements_rate_presence_lower_than", 0.5)
 
     def reached(args, kw):
         raise Reached()
@@ -244,7 +263,9 @@ def _check_guards(res: Result, proj: Project, aw: AlgWorld, schemes):
                 p = rt.call_method(inst, PRED, s)
             except (AbsRaise, IndexOut):
                 continue            # reported by A2
-            for dname, ds in (("incomplete", incomplete), ("complete", complete)):
+            for dname, ds in (("incomplete", incomplete), ("complete", complete),
+                              ("complete after remove_elements", became), ("complete after remove_empty_rankings", became2),
+                              ("complete after remove_elements_rate_presence_lower_than", became3)):
                 outcome = "accepted"
                 try:
                     rt.call_method(inst, "compute_consensus_rankings", ds, s)
@@ -255,7 +276,7 @@ def _check_guards(res: Result, proj: Project, aw: AlgWorld, schemes):
                 except Unsupported as exc:
                     raise AnalysisError(f"{comp.qualname}: unsupported construct line "
                                         f"{getattr(exc.node, 'lineno', '?')}: {exc}")
-                if dname == "complete":
+                if dname.startswith("complete"):
                     if outcome != "accepted":
                         bad = bad or (slabel, dname, f"{outcome} although the dataset is complete")
                 else:
